@@ -53,10 +53,18 @@ def _run(ctx, ncases, rec):
   def scenario():
     for c in range(ncases):
       fl = str(rng.choice(["true", "false"]))
-      xml = XML.format(fl=fl)
+      # the full implicit integrator adds the Coriolis/centrifugal (RNE) term: -d(qfrc_bias)/d(qvel); every other case
+      integ = "implicit" if c % 2 else "implicitfast"
+      xml = XML.format(fl=fl).replace('integrator="implicitfast"', f'integrator="{integ}"')
+      if integ == "implicit":
+        # out-of-plane second hinge + a ball joint: non-planar chain with a rich Coriolis matrix
+        xml = xml.replace('<joint name="h2" type="hinge" axis="0 1 0"', '<joint name="h2" type="hinge" axis="1 0 0.3"').replace(
+          '<geom type="capsule" size=".03 .15"/></body></body>', '<geom type="capsule" size=".03 .15"/><body pos=".1 .2 0"><joint type="ball" damping="0.05"/><geom type="box" size=".05 .1 .02" pos=".1 0 .05"/></body></body></body>')
       mjm = mujoco.MjModel.from_xml_string(xml)
       mjd = mujoco.MjData(mjm)
       mjd.qpos[:] = rng.normal(size=mjm.nq) * 0.4
+      if mjm.nq > mjm.nv:
+        mjd.qpos[-4:] /= np.linalg.norm(mjd.qpos[-4:]) or 1.0
       mjd.qvel[:] = rng.normal(size=mjm.nv)
       mjd.ctrl[:] = rng.normal(size=mjm.nu) * 2.0    # saturates the ctrl-limited actuator often
       mjd.act[:] = rng.normal(size=mjm.na) * 0.5
@@ -75,9 +83,9 @@ def _run(ctx, ncases, rec):
         vp[k] += eps
         vm[k] -= eps
         d.qvel.assign(vp[None].astype(np.float32)); mjw.forward(m, d)
-        fp = (d.qfrc_passive.numpy()[0] + d.qfrc_actuator.numpy()[0]).astype(np.float64)
+        fp = (d.qfrc_passive.numpy()[0] + d.qfrc_actuator.numpy()[0] - (d.qfrc_bias.numpy()[0] if integ == "implicit" else 0.0)).astype(np.float64)
         d.qvel.assign(vm[None].astype(np.float32)); mjw.forward(m, d)
-        fm = (d.qfrc_passive.numpy()[0] + d.qfrc_actuator.numpy()[0]).astype(np.float64)
+        fm = (d.qfrc_passive.numpy()[0] + d.qfrc_actuator.numpy()[0] - (d.qfrc_bias.numpy()[0] if integ == "implicit" else 0.0)).astype(np.float64)
         J[:, k] = (fp - fm) / (2 * eps)
       d.qvel.assign(v0[None].astype(np.float32)); mjw.forward(m, d)
       # mjw's analytic: out = M - dt * qDeriv  (deriv_smooth_vel writes in M's sparse layout) -> compare through one implicitfast step instead:
@@ -96,17 +104,18 @@ def _run(ctx, ncases, rec):
       rhs = h * (d.qfrc_smooth.numpy()[0].astype(np.float64) + d.qfrc_constraint.numpy()[0].astype(np.float64))
       dv_fd = np.linalg.solve(M - h * J, rhs)
       acc.evals += 1
-      acc.distinct.add((c, fl))
+      acc.distinct.add((c, fl, integ))
+      acc.hit(integ)
       scale = 1 + np.abs(dv_fd).max()
       if not np.allclose(dv, dv_fd, rtol=3e-2, atol=3e-3 * scale):
-        acc.find(f"implicitfast step differs from a dense solve with the finite-difference velocity Jacobian of passive+actuator forces (max |d dv| {np.abs(dv - dv_fd).max():.3g})",
-                 "derivative.deriv_smooth_vel", "vs-finite-difference", xml=xml, qpos=mjd.qpos.tolist(), qvel=v0.tolist(), ctrl=mjd.ctrl.tolist(), act=mjd.act.tolist())
+        acc.find(f"{integ} step differs from a dense solve with the finite-difference velocity Jacobian of passive+actuator{'-bias' if integ == 'implicit' else ''} forces (max |d dv| {np.abs(dv - dv_fd).max():.3g})",
+                 "derivative.deriv_smooth_vel" if integ == "implicitfast" else "forward.implicit / derivative.deriv_rne_vel", "vs-finite-difference", xml=xml, qpos=mjd.qpos.tolist(), qvel=v0.tolist(), ctrl=mjd.ctrl.tolist(), act=mjd.act.tolist())
       # and against MuJoCo's own step
       ref = mujoco.MjData(mjm)
       ref.qpos[:], ref.qvel[:], ref.ctrl[:], ref.act[:] = mjd.qpos, mjd.qvel, mjd.ctrl, mjd.act
       mujoco.mj_step(mjm, ref)
       if not np.allclose(d2.qvel.numpy()[0], ref.qvel, rtol=2e-3, atol=2e-3 * (1 + np.abs(ref.qvel).max())):
-        acc.find(f"implicitfast step differs from mj_step (max |d qvel| {np.abs(d2.qvel.numpy()[0] - ref.qvel).max():.3g})", "derivative.deriv_smooth_vel", "vs-mujoco", xml=xml,
+        acc.find(f"{integ} step differs from mj_step (max |d qvel| {np.abs(d2.qvel.numpy()[0] - ref.qvel).max():.3g})", "derivative.deriv_smooth_vel", "vs-mujoco", xml=xml,
                  qpos=mjd.qpos.tolist(), qvel=v0.tolist(), ctrl=mjd.ctrl.tolist(), act=mjd.act.tolist())
       acc.hit("ctrl-saturated" if abs(mjd.ctrl[0]) > 1 else "ctrl-inside")
       acc.sample({"forcelimited": fl, "ctrl": np.round(mjd.ctrl, 2).tolist()})
@@ -120,7 +129,7 @@ def _run(ctx, ncases, rec):
 
 
 RULE = ("arm + slider with joint and tendon damping and velocity-dependent actuators (affine velocity gain with a ctrl-limited control that is often saturated, position with kv, velocity with force "
-        "limit, tendon actuator with filter dynamics); one implicitfast step vs (a) a dense solve of (M - h J) dv = h f with J the central finite-difference velocity Jacobian of the real "
+        "limit, tendon actuator with filter dynamics); one implicitfast step (even cases) or one full implicit step on a non-planar chain with a ball joint (odd cases; J then includes -d qfrc_bias/d qvel) vs (a) a dense solve of (M - h J) dv = h f with J the central finite-difference velocity Jacobian of the real "
         "passive+actuator forces, (b) mujoco.mj_step; distinct = (case, forcelimited)")
 
 
@@ -128,7 +137,7 @@ def correspondence(ctx):
   from harness.corr import func_corr
   fc = func_corr.run(["util_misc._poly_force", "util_misc._poly_force_deriv", "util_misc.poly_potential"], ncases=96 if ctx.thorough else 32, seed=ctx.seed,
                      int_ranges={"util_misc._poly_force": (0, 1), "util_misc._poly_force_deriv": (0, 1), "util_misc.poly_potential": (0, 1)})
-  acc, kc = _run(ctx, 24 if ctx.thorough else 6, True)
+  acc, kc = _run(ctx, 24 if ctx.thorough else 8, True)
   return result(acc, RULE, kc=kc, fc=fc)
 
 
